@@ -149,6 +149,18 @@ fn raw_req() -> BoxedStrategy<Op> {
         3 => (sub_names(), i32s(), a).prop_map(|(sub, max, a)| Op::Raw { req: Req::Pull { sub, max, ri: true }, a }),
         4 => (sub_names(), vec(ack_ids(), 0..5), a).prop_map(|(sub, ack_ids, a)| Op::Raw { req: Req::Ack { sub, ack_ids }, a }),
         4 => (sub_names(), vec(ack_ids(), 0..5), i32s(), a).prop_map(|(sub, ack_ids, secs, a)| Op::Raw { req: Req::Modify { sub, ack_ids, secs }, a }),
+        1 => (prop_oneof![Just(255usize), Just(256), Just(257), Just(300), Just(1000), Just(1001)], 0usize..3, ack_ids(), i32s(), any::<bool>()).prop_map(|(len, pos, bad, secs, is_ack)| {
+            // a long id list with one real id first and one generated (possibly malformed) id somewhere
+            let mut ids: Vec<String> = (0..len).map(|i| format!("{}", 5000 + i)).collect();
+            ids[0] = "1".to_string();
+            let p = match pos { 0 => 1, 1 => len / 2, _ => len - 1 };
+            ids[p] = bad;
+            if is_ack {
+                Op::Raw { req: Req::Ack { sub: S0.name(), ack_ids: ids }, a: false }
+            } else {
+                Op::Raw { req: Req::Modify { sub: S0.name(), ack_ids: ids, secs }, a: false }
+            }
+        }),
         3 => (sub_names(), prop_oneof![Just(-1i64), Just(0), Just(1), Just(65_535), Just(65_536), Just(i64::MAX), Just(i64::MIN), any::<i64>()]).prop_map(|(sub, max_out)| Op::StreamOpenRaw { sub, max_out }),
         6 => (
             prop_oneof![4 => Just(String::new()), 1 => Just(S1.name()), 1 => "[ -~]{1,6}"],
@@ -457,4 +469,54 @@ pub fn c17_classes(case: &Case, _r: &Report) -> Vec<&'static str> {
     v.sort();
     v.dedup();
     v
+}
+
+
+/// C18 at the RPC level: requests naming variants of existing resources.
+pub fn c18_rpc_strategy() -> BoxedStrategy<Case> {
+    let variant = |base: String| -> BoxedStrategy<String> {
+        let b = base.clone();
+        prop_oneof![
+            2 => Just(base.clone()),
+            2 => Just(format!("{}/", base)),
+            1 => Just(format!("{}//", base)),
+            1 => Just(format!("/{}", base)),
+            1 => Just(base.replacen("projects/", "projects//", 1)),
+            1 => Just(base.replacen("/topics/", "//topics/", 1).replacen("/subscriptions/", "//subscriptions/", 1)),
+            1 => Just(base.replacen("/topics/", "/topics//", 1).replacen("/subscriptions/", "/subscriptions//", 1)),
+            1 => Just(base.replacen("/topics/", "/x/topics/", 1).replacen("/subscriptions/", "/x/subscriptions/", 1)),
+            1 => Just(base.to_uppercase()),
+            1 => Just(format!("{} ", base)),
+            1 => Just(format!("{}\u{0}", base)),
+            1 => (0usize..40).prop_map(move |i| {
+                let mut c: Vec<char> = b.chars().collect();
+                let p = i % c.len();
+                c.remove(p);
+                c.into_iter().collect()
+            }),
+        ]
+        .boxed()
+    };
+    let tn = prop_oneof![variant(T0.name()), variant(T1.name()), topic_names()];
+    let sn = prop_oneof![variant(S0.name()), variant(S2.name()), sub_names()];
+    let op = prop_oneof![
+        3 => tn.clone().prop_map(|name| Op::Raw { req: Req::GetTopic { name }, a: false }),
+        2 => tn.clone().prop_map(|name| Op::Raw { req: Req::CreateTopic { name }, a: false }),
+        3 => sn.clone().prop_map(|name| Op::Raw { req: Req::GetSub { name }, a: false }),
+        2 => (sn.clone(), tn.clone()).prop_map(|(name, topic)| Op::Raw { req: Req::CreateSub { name, topic, dl: 10, push: None }, a: false }),
+        1 => sn.prop_map(|sub| Op::Raw { req: Req::Pull { sub, max: 1, ri: true }, a: false }),
+        1 => tn.prop_map(|topic| Op::RawPublish { topic, n: 1, a: false }),
+    ];
+    (any::<u64>(), vec(op, 1..8))
+        .prop_map(|(sched_seed, raws)| {
+            let mut ops = vec![
+                Op::CreateTopic { t: T0, a: false },
+                Op::CreateTopic { t: T1, a: false },
+                Op::CreateSub { s: S0, t: T0, dl: 10, push: 0, a: false },
+                Op::CreateSub { s: S2, t: T1, dl: 10, push: 0, a: false },
+            ];
+            ops.extend(raws);
+            Case { sched_seed, phase_us: 0, fanout_seed: 0, points: vec![], ops }
+        })
+        .boxed()
 }
